@@ -28,7 +28,7 @@ EXEC = {
                 '(schema key -> resolved input key, KeyOf tag priority at every depth), PathStr grammar through the C02 bag',
                 q='file:0,tags:900,random:300', t='file:0,tags:12000,random:4000'),
     'C12': dict(owns=['C12'], decide='C12_PTOnlyWhenClean, C12_CallbackArgs (MC); lock-step test/pt events with argument class, value seen and ctx.Get snapshot',
-                q='file:0,universe:600,callbacks:700,random:300', t='file:0,universe:0,callbacks:10000,random:4000'),
+                q='file:0,universe:600,callbacks:600,preprocess:300,random:200', t='file:0,universe:0,callbacks:10000,preprocess:4000,random:4000'),
     'C13': dict(owns=['C13'], decide='pairs Validate(&v) / Parse(toMap(v), &fresh) on fully populated values: TLC compares the two logged results (path, code, type, message, value) '
                 'and each with the reference',
                 q='file:0,pairs:900,pairspt:500', t='file:0,pairs:15000,pairspt:8000'),
